@@ -402,6 +402,9 @@ func init() { Registry["C04"] = runC04 }
 
 func runC04(ctx Ctx) int {
 	world.PinClock()
+	if rc, ok := concDispatch("C04", ctx); ok {
+		return rc
+	}
 	run := ev.NewRun("C04")
 	run.Rule = "every symbol of the S_xml alphabet (16 strings: & < > \" ' CR LF CRLF TAB, leading/trailing blanks, 2/3/4-byte UTF-8, URL metacharacters, ]]>, entity look-alikes) in every field that reaches a signed artefact (14 callback fields, user fields of attribute-query responses, 9 metadata fields), singly (quick) and in pairs (thorough), x {rsa-sha1, rsa-sha256} x {POST, Redirect} x stored consumer URL {registered, with query, empty} x metadata signing {off, rsa-sha1, rsa-sha256}; plus SSO-persisted records followed through the callback. The bytes as sent are verified with the certificate the IdP publishes by goxmldsig AND an own exclusive-C14N verifier (failure only if both reject) or by a spec-literal HTTP-Redirect verifier"
 	run.Assume = []string{"a signature counts as failing only when both independent XML-DSig verifiers reject it; disagreements are counted", "strings outside the 16-symbol alphabet and combinations of more than two symbols are not explored"}
@@ -499,6 +502,11 @@ func runC04(ctx Ctx) int {
 			}
 		}
 	})
+	cb, cs := 1, 120
+	if run.Tier == "thorough" {
+		cb, cs = 2, 1500
+	}
+	runConc(run, "C04", cb, cs)
 	run.Sample(cases[0])
 	run.Sample(cases[len(cases)/2])
 	run.Sample(cases[len(cases)-1])
